@@ -377,6 +377,15 @@ SerdeViol(r) ==
            \cup (IF r[6] = 1 /\ ~valid /\ ~alias THEN {<<"NOTE", "structured-non-natural-input-accepted">>} ELSE {})
            \cup (IF r[1] = 5 /\ valid /\ r[6] # 1 THEN {<<"C19", "structured-valid-rejected">>} ELSE {})
            \cup (IF valid /\ r[6] = 1 /\ Sub(r, 7, 4) # x THEN {<<"C19", "structured-value-changed">>} ELSE {})
+      [] r[1] = 18 ->       \* blind mutation of a natural ParameterNumberMessage: [18, way, ok, rep(6), enc]
+           (IF r[3] = -2 THEN {<<"C19", "deserialize-panics">>} ELSE {})
+           \cup (IF r[3] = 1 /\ ~(r[9] <= 2 /\ PnValid(Sub(r, 4, 6))) THEN {<<"C19", "pn-inconsistent-accepted">>} ELSE {})
+           \cup (IF r[3] = 1 /\ ~(r[10] \in 0..127) THEN {<<"C19", "pn-encoder-fails-after-deserialize">>} ELSE {})
+      [] r[1] = 19 ->       \* the same for ControlChange14BitMessage: [19, way, ok, ch, cn, value, lsb, enc]
+           (IF r[3] = -2 THEN {<<"C19", "deserialize-panics">>} ELSE {})
+           \cup (IF r[3] = 1 /\ ~(r[4] \in 0..15 /\ r[5] \in 0..31 /\ r[6] \in 0..16383)
+                 THEN {<<"C19", "cc14-invalid-accepted">>} ELSE {})
+           \cup (IF r[3] = 1 /\ (r[7] = -2 \/ r[8] = -2) THEN {<<"C19", "cc14-accessor-panics-after-deserialize">>} ELSE {})
       [] r[1] = 6 ->        \* ShortMessageType
            (IF r[3] = B2I(r[2] \in TypeBytes) THEN {} ELSE {<<"C19", "type-accepts-iff-valid">>})
            \cup (IF r[3] = 1 /\ r[4] # r[2] THEN {<<"C19", "type-value-changed">>} ELSE {})
